@@ -25,9 +25,9 @@ META = {
     'assumptions': ['the model and the language graph are meant to be shared (C14)'],
     'shards': {'quick': 8, 'thorough': 16},
     'quotas': {
-        'quick': {'copies-compared': 800, 'containers-compared': 20000, 'mutations-applied': 10000, 'side:copy': 3000,
-                  'side:original': 3000, 'mutation:ttc-nested': 300, 'mutation:tags': 300, 'mutation:extras-nested': 300,
-                  'class:highest-id-removed-before-copy': 50, 'class:copy-with-attackers': 300, 'next-ids-compared': 800},
+        'quick': {'copies-compared': 200, 'containers-compared': 9000, 'mutations-applied': 5000, 'side:copy': 2000,
+                  'side:original': 2000, 'mutation:ttc-nested': 200, 'mutation:tags': 300, 'mutation:extras-nested': 80,
+                  'class:highest-id-removed-before-copy': 40, 'class:copy-with-attackers': 100, 'next-ids-compared': 200},
         'thorough': {'copies-compared': 40000, 'containers-compared': 1000000, 'mutations-applied': 600000},
     },
 }
